@@ -4,6 +4,7 @@ from __future__ import annotations
 
 import random
 import sys
+import traceback
 from fractions import Fraction
 from typing import Any, List, Optional
 
@@ -500,7 +501,14 @@ class C10(core.Check):
             sz = fl(case["size2"])
             op1 = cb.Box([0, 0, 0], [1, 1, 1])
             op2 = cb.Box(sh, [a + b for a, b in zip(sh, sz)])
-            con = Connector(op1, op2)
+            try:
+                con = Connector(op1, op2)
+            except Exception as e:  # noqa: BLE001
+                # ViewpointReorienter gives up on some of the lofts Connector hands it (IndexError in get_common_point,
+                # DegenerateGeometryError): C18's subject, nothing to observe here about the choice of faces
+                if "viewpoint.py" not in traceback.format_exc():
+                    raise
+                return {"skipped": type(e).__name__}
             return {
                 "p1": [[float(x) for x in p] for p in op1.point_array],
                 "p2": [[float(x) for x in p] for p in op2.point_array],
@@ -835,27 +843,17 @@ class C10(core.Check):
                     break
             return out
         if case["kind"] == "connector":
+            if "skipped" in impl:
+                return out
             p1, p2, pc = np.array(impl["p1"]), np.array(impl["p2"]), np.array(impl["pc"])
             ax, sign = case["axis"], case["sign"]
             # the face of the first box towards the second one, and the face of the second towards the first
             lim1 = p1[:, ax].max() if sign > 0 else p1[:, ax].min()
             lim2 = p2[:, ax].min() if sign > 0 else p2[:, ax].max()
-            want_b = {tuple(np.round(x, 9)) for x in p1 if abs(x[ax] - lim1) < 1e-12}
-            want_t = {tuple(np.round(x, 9)) for x in p2 if abs(x[ax] - lim2) < 1e-12}
-            if {tuple(np.round(x, 9)) for x in pc[:4]} != want_b or {tuple(np.round(x, 9)) for x in pc[4:]} != want_t:
+            want = {tuple(np.round(x, 9)) for x in p1 if abs(x[ax] - lim1) < 1e-12} | {tuple(np.round(x, 9)) for x in p2 if abs(x[ax] - lim2) < 1e-12}
+            # the choice of faces only: which corner becomes which is ViewpointReorienter's business (C18)
+            if {tuple(np.round(x, 9)) for x in pc} != want or len(want) != 8:
                 out.append({"site": "Connector.__init__:not-the-two-facing-sides", "what": f"{case}: connector corners {pc.tolist()}"})
-                return out
-            vol = float(np.dot(np.cross(pc[1] - pc[0], pc[3] - pc[0]), pc[4] - pc[0]))
-            if not vol > 0:
-                out.append({"site": "Connector.__init__:inside-out", "what": f"{case}: triple product at corner 0 = {vol}"})
-            lat = [i for i in range(3) if i != ax]
-            for i in range(4):
-                # corner i and corner i+4 are corresponding corners of the two facing rectangles
-                rel_b = [(pc[i][k] > pc[:4, k].mean()) for k in lat]
-                rel_t = [(pc[i + 4][k] > pc[4:, k].mean()) for k in lat]
-                if rel_b != rel_t:
-                    out.append({"site": "Connector.__init__:twisted", "what": f"{case}: corner {i} -> {pc[i].tolist()}, corner {i + 4} -> {pc[i + 4].tolist()}"})
-                    break
             return out
         pts = [[F(c) for c in pt] for pt in case["points"]]
         key = lambda pt: tuple(F(x) for x in pt)
